@@ -11,18 +11,23 @@ import (
 
 	"github.com/cockroachdb/apd/v3"
 	"pgregory.net/rapid"
+	"verif/harness/arith"
 	"verif/harness/core"
 	"verif/harness/gen"
 	"verif/harness/ref"
 )
 
 type Case struct {
-	Kind  string   `json:"kind"` // text | compose | float
-	X     core.Dec `json:"x"`
-	Dirty core.Dec `json:"dirty"`
-	Cap   int      `json:"cap"`  // decompose buffer capacity
-	Bits  uint64   `json:"bits"` // float64 bit pattern
+	Kind  string      `json:"kind"` // text | compose | float
+	X     core.Dec    `json:"x"`
+	Dirty core.Dec    `json:"dirty"`
+	Cap   int         `json:"cap"`          // decompose buffer capacity
+	Bits  uint64      `json:"bits"`         // float64 bit pattern
+	Op    *arith.Case `json:"op,omitempty"` // kind "result": the Decimal is what this call returns
 }
+
+var resultOps = arith.Gen([]string{"add", "sub", "mul", "quo", "quointeger", "rem", "round", "quantize", "rtie", "reduce", "sqrt", "abs", "neg"}, 40, false)
+var resultCostly = arith.Gen([]string{"exp", "ln", "log10", "pow", "cbrt"}, 16, false)
 
 var shapeCtx = core.Ctx{P: 20, Emax: 1000, Emin: -1000}
 
@@ -91,6 +96,34 @@ func genDec(t *rapid.T) core.Dec {
 
 func genCase(t *rapid.T) Case {
 	var c Case
+	if gen.Pick(t, 8, "result") == 1 {
+		// "for every Decimal" includes the ones operations return: results at the edges of the
+		// context's and of the package's exponent range are Decimals too and must print to
+		// something that reads back as themselves
+		c.Kind = "result"
+		var ac arith.Case
+		if gen.Pick(t, 5, "rcostly") == 0 {
+			ac = resultCostly(t)
+		} else {
+			ac = resultOps(t)
+		}
+		if gen.Pick(t, 2, "rlimit") == 0 {
+			ac.Ctx.Emax, ac.Ctx.Emin = gen.Limit, -gen.Limit
+			if ac.X.Form == 0 {
+				nd := int32(len(ac.X.Coeff))
+				switch gen.Pick(t, 3, "redge") {
+				case 0:
+					ac.X.Exp = -gen.Limit + int32(rapid.IntRange(0, 30).Draw(t, "rlo"))
+				case 1:
+					ac.X.Exp = gen.Limit - nd + 1 - int32(rapid.IntRange(0, 30).Draw(t, "rhi"))
+				}
+			}
+		}
+		c.Op = &ac
+		c.X = core.Dec{Coeff: "0"}
+		c.Dirty = core.Dec{Coeff: "0"}
+		return c
+	}
 	switch gen.Pick(t, 8, "kind") {
 	case 0, 1:
 		c.Kind = "compose"
@@ -142,8 +175,44 @@ func check(c Case, st *core.Stats) error {
 		return checkText(c, st)
 	case "compose":
 		return checkCompose(c, st)
+	case "result":
+		return checkResult(c, st)
 	}
 	return checkFloat(c, st)
+}
+
+// checkResult: whatever an operation returns without an error round-trips through String,
+// Text('E') and MarshalText like any other Decimal.
+func checkResult(c Case, st *core.Stats) error {
+	if c.Op == nil {
+		return nil
+	}
+	var o arith.Out
+	core.Guard(st, func() { o = arith.Exec(*c.Op) })
+	if o.Err != nil || o.D == nil {
+		st.Class("result-error")
+		return nil
+	}
+	d := o.D
+	if d.Form == apd.Finite && (d.Exponent < -gen.Limit+40 || int64(d.Exponent)+int64(len(d.Coeff.String())) > gen.Limit-40) {
+		st.NonTrivial("result-at-the-package-limits")
+	} else {
+		st.NonTrivial("result")
+	}
+	mt, merr := d.MarshalText()
+	for name, s := range map[string]string{"String": d.String(), "Text(E)": d.Text('E'), "MarshalText": string(mt)} {
+		if name == "MarshalText" && merr != nil {
+			return fmt.Errorf("%v returned %s, whose MarshalText fails: %v", *c.Op, core.Show(d), merr)
+		}
+		back, _, err := apd.NewFromString(s)
+		if err != nil {
+			return fmt.Errorf("%v returned %s; its %s %q is rejected by the parser: %v", *c.Op, core.Show(d), name, trunc(s), err)
+		}
+		if !core.SameFields(back, d) && !(d.Form >= apd.NaNSignaling && back.Form == d.Form && back.Negative == d.Negative) && !(d.Form == apd.Infinite && back.Form == apd.Infinite && back.Negative == d.Negative) {
+			return fmt.Errorf("%v returned %s; its %s %q reads back as %s", *c.Op, core.Show(d), name, trunc(s), core.Show(back))
+		}
+	}
+	return nil
 }
 
 func classifyDec(d core.Dec, st *core.Stats) {
